@@ -3,6 +3,7 @@ package gen
 import (
 	"encoding/json"
 	"fmt"
+	"github.com/cosmos/btcutil/base58"
 	"math/big"
 	"time"
 
@@ -123,6 +124,27 @@ func Genesis(app *chain.App, variant string) map[string]json.RawMessage {
 		panic(err)
 	}
 	gs["ecocredit"] = bz
+	if variant == "prefix" {
+		// data anchored by an earlier binary: the IRI is well formed, but its content hash (digest
+		// algorithm byte 0) is one that today's message validation would refuse — such a record can only
+		// come with a genesis file, and must stay reachable by its IRI
+		var d map[string]json.RawMessage
+		if err := json.Unmarshal(gs["data"], &d); err == nil {
+			payload := make([]byte, 34)
+			for i := 2; i < 34; i++ {
+				payload[i] = byte(7 * i)
+			}
+			iri := "regen:" + base58.CheckEncode(payload, 0) + ".bin"
+			id := []byte{0xfe, 0xed, 0xbe, 0xef}
+			b1, _ := json.Marshal([]m{{"id": id, "iri": iri}})
+			b2, _ := json.Marshal([]m{{"id": id, "timestamp": "2021-03-03T03:03:03Z"}})
+			d["regen.data.v1.DataID"] = b1
+			d["regen.data.v1.DataAnchor"] = b2
+			if bz, err := json.Marshal(d); err == nil {
+				gs["data"] = bz
+			}
+		}
+	}
 	return gs
 }
 
